@@ -337,7 +337,7 @@ func vfC03RenominateRace(e *vfEnv, r *vfResult, idx int) {
 	}
 	wit := map[string]any{"idx": idx, "conflict_queued_first": queued, "renominate_error": fmt.Sprint(rerr), "use_candidate_requests": emittedUC, "controlling_afterwards": sn.Controlling}
 	if rerr != nil && emittedUC > 0 {
-		s.viol("C03", "refused-renomination-sent-use-candidate", fmt.Sprintf("RenominateCandidate returned %v but %d USE-CANDIDATE request(s) were sent", rerr, emittedUC), wit)
+		s.viol(s.e.prop, "refused-renomination-sent-use-candidate", fmt.Sprintf("RenominateCandidate returned %v but %d USE-CANDIDATE request(s) were sent", rerr, emittedUC), wit)
 	}
 	s.emittedCheck(0) // USE-CANDIDATE emitted while the role was controlled
 	if queued && sn.Err == nil && !sn.Controlling {
